@@ -69,6 +69,281 @@ pub proof fn lemma_c14_encode_decode(w: int)
 {
 }
 
+
+// =====================================================================================
+// labels
+// =====================================================================================
+pub open spec fn ll(l: Label) -> int { match l { Label::SixBytesLabel(_) => 6, Label::ThreeBytesLabel(_) => 3, _ => 0 } }
+pub open spec fn lbytes(l: Label) -> Seq<u8> { match l { Label::SixBytesLabel(b) => b@, Label::ThreeBytesLabel(b) => b@, _ => Seq::empty() } }
+pub open spec fn ltype(l: Label) -> LabelType { match l {
+    Label::SixBytesLabel(_) => LabelType::SixBytesLabel, Label::ThreeBytesLabel(_) => LabelType::ThreeBytesLabel,
+    Label::Broadcast => LabelType::Broadcast, Label::ReUse => LabelType::ReUse } }
+pub open spec fn lt_len(t: LabelType) -> int { match t { LabelType::SixBytesLabel => 6, LabelType::ThreeBytesLabel => 3, _ => 0 } }
+pub open spec fn is_addr(l: Label) -> bool { l is SixBytesLabel || l is ThreeBytesLabel }
+pub open spec fn zero6() -> Label { Label::SixBytesLabel([0u8, 0u8, 0u8, 0u8, 0u8, 0u8]) }
+pub open spec fn is_zero6(l: Label) -> bool { l == zero6() }
+/// the forbidden label is exactly the 6-byte label whose bytes are all zero
+pub proof fn lemma_zero6(l: Label)
+    ensures is_zero6(l) <==> (l matches Label::SixBytesLabel(b) && forall|i: int| 0 <= i < 6 ==> b@[i] == 0u8)
+{
+    let z = [0u8, 0u8, 0u8, 0u8, 0u8, 0u8];
+    match l { Label::SixBytesLabel(b) => { if forall|i: int| 0 <= i < 6 ==> b@[i] == 0u8 { assert(b@ =~= z@); assert(b == z); } else { assert(b != z) by { if b == z { assert(forall|i: int| 0 <= i < 6 ==> z@[i] == 0u8); } } } } _ => {} }
+}
+/// the label carried by `s` for label type `t` (s has exactly lt_len(t) bytes)
+pub open spec fn parse_label(t: LabelType, s: Seq<u8>) -> Label { match t {
+    LabelType::SixBytesLabel => Label::SixBytesLabel([s[0], s[1], s[2], s[3], s[4], s[5]]),
+    LabelType::ThreeBytesLabel => Label::ThreeBytesLabel([s[0], s[1], s[2]]),
+    LabelType::Broadcast => Label::Broadcast,
+    LabelType::ReUse => Label::ReUse } }
+pub proof fn lemma_parse_label_inv(l: Label)
+    ensures parse_label(ltype(l), lbytes(l)) == l, lbytes(l).len() == ll(l), ll(l) == lt_len(ltype(l))
+{
+    match l {
+        Label::SixBytesLabel(a) => { assert([a@[0], a@[1], a@[2], a@[3], a@[4], a@[5]] =~= a); }
+        Label::ThreeBytesLabel(a) => { assert([a@[0], a@[1], a@[2]] =~= a); }
+        _ => {}
+    }
+}
+
+
+// =====================================================================================
+// wire formats (ETSI TS 102 606 section 4.2), field-wise: what a parser reading the standard sees
+// =====================================================================================
+pub open spec fn hdr_bytes(k: PktType, t: LabelType, gse_len: int) -> Seq<u8> { be16(hdr_word(k, t, gse_len) as u16) }
+/// complete packet: header | protocol type | label | PDU
+pub open spec fn complete_fields(b: Seq<u8>, n: int, ptype: u16, lw: Label, pdu: Seq<u8>) -> bool {
+    &&& n == 4 + ll(lw) + pdu.len() && n <= b.len() && n - 2 <= 4095
+    &&& b.subrange(0, 2) =~= hdr_bytes(PktType::CompletePkt, ltype(lw), n - 2)
+    &&& b.subrange(2, 4) =~= be16(ptype)
+    &&& b.subrange(4, 4 + ll(lw)) =~= lbytes(lw)
+    &&& b.subrange(4 + ll(lw), n) =~= pdu
+}
+/// first fragment: header | frag id | total length | protocol type | label | payload
+pub open spec fn first_fields(b: Seq<u8>, n: int, fid: u8, total: int, ptype: u16, lw: Label, payload: Seq<u8>) -> bool {
+    &&& n == 7 + ll(lw) + payload.len() && n <= b.len() && n - 2 <= 4095 && 0 <= total <= 0xFFFF
+    &&& b.subrange(0, 2) =~= hdr_bytes(PktType::FirstFragPkt, ltype(lw), n - 2)
+    &&& b[2] == fid
+    &&& b.subrange(3, 5) =~= be16(total as u16)
+    &&& b.subrange(5, 7) =~= be16(ptype)
+    &&& b.subrange(7, 7 + ll(lw)) =~= lbytes(lw)
+    &&& b.subrange(7 + ll(lw), n) =~= payload
+}
+/// intermediate fragment: header (label type 11) | frag id | payload
+pub open spec fn inter_fields(b: Seq<u8>, n: int, fid: u8, payload: Seq<u8>) -> bool {
+    &&& n == 3 + payload.len() && n <= b.len() && n - 2 <= 4095
+    &&& b.subrange(0, 2) =~= hdr_bytes(PktType::IntermediateFragPkt, LabelType::ReUse, n - 2)
+    &&& b[2] == fid
+    &&& b.subrange(3, n) =~= payload
+}
+/// end fragment: header (label type 11) | frag id | payload | CRC-32
+pub open spec fn end_fields(b: Seq<u8>, n: int, fid: u8, payload: Seq<u8>, crc: u32) -> bool {
+    &&& n == 7 + payload.len() && n <= b.len() && n - 2 <= 4095
+    &&& b.subrange(0, 2) =~= hdr_bytes(PktType::EndFragPkt, LabelType::ReUse, n - 2)
+    &&& b[2] == fid
+    &&& b.subrange(3, 3 + payload.len() as int) =~= payload
+    &&& b.subrange(3 + payload.len() as int, n) =~= be32(crc)
+}
+/// the label the packet in `b` carries, given the label the caller passed: re-use marker iff the label type bits are 11
+pub open spec fn wire_label(b: Seq<u8>, label_in: Label) -> Label {
+    if hdr_t(from_be16(b.subrange(0, 2)) as int) == 3 { Label::ReUse } else { label_in } }
+
+
+pub proof fn lemma_be16_inv(x: u16) ensures from_be16(be16(x)) == x, be16(x).len() == 2 {
+    assert((((x >> 8) as u8 as u16) << 8) | ((x & 0xff) as u8 as u16) == x) by (bit_vector);
+}
+pub proof fn lemma_be32_inv(x: u32) ensures from_be32(be32(x)) == x, be32(x).len() == 4 {
+    assert(((((x >> 24) as u8 as u32) << 24) | ((((x >> 16) & 0xff) as u8 as u32) << 16) | ((((x >> 8) & 0xff) as u8 as u32) << 8) | ((x & 0xff) as u8 as u32)) == x) by (bit_vector);
+}
+/// the header written in front of a packet tells which label was written
+pub proof fn lemma_wire_label(b: Seq<u8>, k: PktType, lw: Label, label_in: Label, gse_len: int)
+    requires b.len() >= 2, b.subrange(0, 2) =~= hdr_bytes(k, ltype(lw), gse_len), 0 <= gse_len <= 4095, lw == label_in || lw == Label::ReUse,
+    ensures wire_label(b, label_in) == lw, hdr_decode(from_be16(b.subrange(0, 2)) as int) == hdr_decode(hdr_word(k, ltype(lw), gse_len))
+{
+    lemma_be16_inv(hdr_word(k, ltype(lw), gse_len) as u16);
+    lemma_c14_decode_encode(k, ltype(lw), gse_len);
+}
+
+// =====================================================================================
+// sender: label re-use policy (C04, C15) and size decisions (C01, C02, C06, C09, C11, C18)
+// =====================================================================================
+pub struct EncView { pub activated: bool, pub max: int, pub cur: int, pub last: Option<Label> }
+/// a substitution of `label` by the re-use marker is permitted in state e (C15 (d), C04)
+pub open spec fn may_substitute(e: EncView, label: Label) -> bool { e.activated && e.last == Some(label) && is_addr(label) }
+/// what any implementation of the re-use decision must satisfy: `w` is the label written for `label`, e2 the next state
+pub open spec fn label_step_ok(e: EncView, label: Label, w: Label, e2: EncView) -> bool {
+    &&& e2.activated == e.activated && e2.max == e.max
+    &&& (w == label || (w == Label::ReUse && may_substitute(e, label)))
+    &&& (w == Label::ReUse && label != Label::ReUse && e.max > 0 ==> e.cur < e.max && e2.cur == e.cur + 1)
+    &&& 0 <= e2.cur && (e.max > 0 && e.cur <= e.max ==> e2.cur <= e.max)
+    &&& (w == Label::ReUse && label == Label::ReUse ==> e2.cur >= e.cur)
+    &&& (e.activated ==> e2.last == (if is_addr(w) { Some(w) } else if w == Label::Broadcast { None } else { e.last }))
+}
+/// C15 invariant: g = number of consecutive packets whose label the encapsulator replaced; prev = label carried by the
+/// last start/complete packet since the last reset / broadcast / (re-)enabling, None if there is none
+pub open spec fn pol(e: EncView, g: int, prev: Option<Label>) -> bool {
+    &&& 0 <= g && 0 <= e.cur && 0 <= e.max
+    &&& (e.max > 0 ==> g <= e.cur && e.cur <= e.max)
+    &&& (e.activated ==> (e.last matches Some(l) ==> prev == Some(l)))
+    &&& (prev matches Some(l) ==> is_addr(l))
+}
+pub open spec fn prev_after(prev: Option<Label>, w: Label) -> Option<Label> {
+    if is_addr(w) { Some(w) } else if w == Label::Broadcast { None } else { prev } }
+pub open spec fn run_after(g: int, label: Label, w: Label) -> int {
+    if w == Label::ReUse && label != Label::ReUse { g + 1 } else if w == Label::ReUse { g } else { 0 } }
+/// C15: every successful start/complete packet preserves the invariant and respects the four policy clauses
+pub proof fn lemma_c15_step(e: EncView, g: int, prev: Option<Label>, label: Label, w: Label, e2: EncView)
+    requires pol(e, g, prev), label_step_ok(e, label, w, e2),
+    ensures
+        pol(e2, run_after(g, label, w), prev_after(prev, w)),
+        !e.activated ==> w == label,
+        e.max > 0 && w == Label::ReUse && label != Label::ReUse ==> g + 1 <= e.max,
+        w == Label::ReUse && label != Label::ReUse ==> prev == Some(label) && is_addr(label),
+{ }
+
+
+/// C15 over whole histories: operations on the sender's re-use state, as constrained by the contracts of the real methods
+pub enum SOp {
+    /// a successful encap / encap_ext: label passed, label written, state after (clause E.label / X.label)
+    Sent { label: Label, w: Label, e2: EncView },
+    /// a failed encap / encap_ext / any encap_frag: state unchanged (clauses E.err_atomic / X.err_atomic; encap_frag takes &self)
+    Unchanged,
+    /// reset_last_label (S.reset), disable (S.disable), enable (S.enable), enable with max (S.enable_max): state after
+    Reset { e2: EncView }, Disable { e2: EncView }, Enable { e2: EncView },
+}
+pub open spec fn sop_ok(e: EncView, op: SOp) -> bool { match op {
+    SOp::Sent { label, w, e2 } => label_step_ok(e, label, w, e2),
+    SOp::Unchanged => true,
+    SOp::Reset { e2 } => e2 == (EncView { last: None, ..e }),
+    SOp::Disable { e2 } => !e2.activated && e2.max == 0 && e2.cur == 0,
+    SOp::Enable { e2 } => e2.activated && e2.cur == 0 && e2.last.is_none() && 0 <= e2.max,
+} }
+pub open spec fn sop_next(e: EncView, op: SOp) -> EncView { match op {
+    SOp::Sent { e2, .. } => e2, SOp::Unchanged => e, SOp::Reset { e2 } => e2, SOp::Disable { e2 } => e2, SOp::Enable { e2 } => e2 } }
+/// ghost observers: run length of consecutive substituted packets, label carried by the last start/complete packet
+pub open spec fn sop_run(g: int, op: SOp) -> int { match op { SOp::Sent { label, w, .. } => run_after(g, label, w), SOp::Unchanged => g, _ => 0 } }
+pub open spec fn sop_prev(prev: Option<Label>, op: SOp) -> Option<Label> { match op {
+    SOp::Sent { w, .. } => prev_after(prev, w), SOp::Unchanged => prev, SOp::Reset { .. } => None,
+    // a receiver that is not reset keeps its memory across disable/enable: prev is unchanged
+    SOp::Disable { .. } => prev, SOp::Enable { .. } => prev } }
+pub open spec fn trace_ok(e: EncView, ops: Seq<SOp>) -> bool decreases ops.len() {
+    ops.len() == 0 || (sop_ok(e, ops[0]) && trace_ok(sop_next(e, ops[0]), ops.subrange(1, ops.len() as int))) }
+/// C15: along every history the invariant holds, hence at every successful packet: (a) disabled => no substitution,
+/// (b) at most max consecutive substitutions, (c)/(d) substitution only for the 3/6-byte label carried by the preceding start/complete packet
+pub proof fn lemma_c15_trace(e: EncView, g: int, prev: Option<Label>, ops: Seq<SOp>, k: int)
+    requires pol(e, g, prev), trace_ok(e, ops), 0 <= k < ops.len(),
+    ensures ({ let (ek, gk, pk) = state_at(e, g, prev, ops, k);
+        pol(ek, gk, pk) && (ops[k] matches SOp::Sent { label, w, e2 } ==> (
+            (!ek.activated ==> w == label)
+            && (ek.max > 0 && w == Label::ReUse && label != Label::ReUse ==> gk + 1 <= ek.max)
+            && (w == Label::ReUse && label != Label::ReUse ==> pk == Some(label) && is_addr(label)))) })
+    decreases k
+{
+    if k > 0 {
+        let op = ops[0];
+        match op { SOp::Sent { label, w, e2 } => { lemma_c15_step(e, g, prev, label, w, e2); } _ => {} }
+        let rest = ops.subrange(1, ops.len() as int);
+        assert(rest[k - 1] == ops[k]);
+        lemma_c15_trace(sop_next(e, op), sop_run(g, op), sop_prev(prev, op), rest, k - 1);
+    } else {
+        match ops[0] { SOp::Sent { label, w, e2 } => { lemma_c15_step(e, g, prev, label, w, e2); } _ => {} }
+    }
+}
+pub open spec fn state_at(e: EncView, g: int, prev: Option<Label>, ops: Seq<SOp>, k: int) -> (EncView, int, Option<Label>) decreases k {
+    if k <= 0 || ops.len() == 0 { (e, g, prev) } else { state_at(sop_next(e, ops[0]), sop_run(g, ops[0]), sop_prev(prev, ops[0]), ops.subrange(1, ops.len() as int), k - 1) } }
+
+pub enum Dec { ErrLabel, ErrPtype, ErrSize, ErrPduLen, Complete { n: int }, First { n: int, k: int } }
+pub open spec fn min_int(a: int, b: int) -> int { if a < b { a } else { b } }
+/// what encap / encap_preview must answer for a PDU of pdu_len bytes, the label `lw` as written, a buffer of buf bytes
+pub open spec fn size_decision(lw: Label, label_in: Label, ptype: u16, pdu_len: int, buf: int) -> Dec {
+    if is_zero6(label_in) { Dec::ErrLabel }
+    else if 0x100 <= ptype < 0x600 { Dec::ErrPtype }
+    else if buf >= 4 + ll(lw) + pdu_len && 2 + ll(lw) + pdu_len <= 4095 { Dec::Complete { n: 4 + ll(lw) + pdu_len } }
+    else if buf < 7 + ll(lw) { Dec::ErrSize }
+    else if pdu_len + 2 + ll(lw) > 0xFFFF { Dec::ErrPduLen }
+    else { let k = min_int(buf - 7 - ll(lw), 4095 - 5 - ll(lw)); Dec::First { n: 7 + ll(lw) + k, k } }
+}
+pub enum FDec { ErrCtx, ErrSize, End { n: int }, Inter { n: int, k: int } }
+/// what encap_frag / encap_frag_preview must answer with ctx_len bytes already sent
+pub open spec fn frag_decision(pdu_len: int, ctx_len: int, buf: int) -> FDec {
+    if ctx_len > pdu_len { FDec::ErrCtx } else {
+        let rem = pdu_len - ctx_len;
+        if buf >= rem + 7 && rem + 5 <= 4095 { FDec::End { n: rem + 7 } }
+        else if buf > 3 && rem >= 1 { let k = min_int(min_int(buf - 3, rem), 4094); FDec::Inter { n: 3 + k, k } }
+        else { FDec::ErrSize } }
+}
+/// C02/C06: a first fragment is a proper prefix, fits the buffer and the 12-bit length
+pub proof fn lemma_first_is_proper_prefix(lw: Label, label_in: Label, ptype: u16, pdu_len: int, buf: int)
+    requires 0 <= pdu_len, 0 <= buf, size_decision(lw, label_in, ptype, pdu_len, buf) is First,
+    ensures ({ let d = size_decision(lw, label_in, ptype, pdu_len, buf);
+        d matches Dec::First { n, k } && 0 <= k < pdu_len && n <= buf && n - 2 <= 4095 && n == 7 + ll(lw) + k })
+{ }
+/// C02: a buffer of 13 bytes or more is never refused for lack of room by the first call
+pub proof fn lemma_13_bytes_suffice(lw: Label, label_in: Label, ptype: u16, pdu_len: int, buf: int)
+    requires 0 <= pdu_len, buf >= 13,
+    ensures !(size_decision(lw, label_in, ptype, pdu_len, buf) is ErrSize)
+{ }
+/// C11 / C02: with at least 7 bytes the continuation always makes progress
+pub proof fn lemma_frag_progress(pdu_len: int, ctx_len: int, buf: int)
+    requires 0 <= ctx_len <= pdu_len, buf >= 7,
+    ensures ({ let d = frag_decision(pdu_len, ctx_len, buf);
+        (d matches FDec::End { n } && n <= buf && n - 2 <= 4095)
+        || (d matches FDec::Inter { n, k } && 1 <= k <= pdu_len - ctx_len && n <= buf && n - 2 <= 4095) })
+{ }
+/// C11: the useless buffer is rejected: an intermediate fragment always carries at least one byte
+pub proof fn lemma_frag_nonempty(pdu_len: int, ctx_len: int, buf: int)
+    requires 0 <= ctx_len <= pdu_len, 0 <= buf,
+    ensures frag_decision(pdu_len, ctx_len, buf) matches FDec::Inter { n, k } ==> 1 <= k <= pdu_len - ctx_len && n == 3 + k && n <= buf && n - 2 <= 4095,
+            frag_decision(pdu_len, ctx_len, buf) matches FDec::End { n } ==> n == pdu_len - ctx_len + 7 && n <= buf && n - 2 <= 4095,
+{ }
+/// C11: any schedule of buffers >= 7 finishes within (remaining + 1) calls
+pub open spec fn runs_to_end(pdu_len: int, ctx_len: int, bufs: Seq<int>) -> bool decreases bufs.len() {
+    if bufs.len() == 0 { false } else { match frag_decision(pdu_len, ctx_len, bufs[0]) {
+        FDec::End { .. } => true,
+        FDec::Inter { k, .. } => runs_to_end(pdu_len, ctx_len + k, bufs.subrange(1, bufs.len() as int)),
+        _ => false } } }
+pub proof fn lemma_c11_finish(pdu_len: int, ctx_len: int, bufs: Seq<int>)
+    requires 0 <= ctx_len <= pdu_len, bufs.len() >= pdu_len - ctx_len + 1, forall|i: int| 0 <= i < bufs.len() ==> bufs[i] >= 7,
+    ensures runs_to_end(pdu_len, ctx_len, bufs)
+    decreases bufs.len()
+{
+    lemma_frag_progress(pdu_len, ctx_len, bufs[0]);
+    match frag_decision(pdu_len, ctx_len, bufs[0]) {
+        FDec::Inter { n, k } => {
+            let rest = bufs.subrange(1, bufs.len() as int);
+            assert forall|i: int| 0 <= i < rest.len() implies rest[i] >= 7 by { assert(rest[i] == bufs[i + 1]); }
+            lemma_c11_finish(pdu_len, ctx_len + k, rest);
+        }
+        _ => {}
+    }
+}
+/// C11: the payloads produced over any schedule (rejected buffers skipped) are consecutive slices whose concatenation is the rest of the PDU
+pub open spec fn payloads(pdu: Seq<u8>, ctx_len: int, bufs: Seq<int>) -> Seq<u8> decreases bufs.len() {
+    if bufs.len() == 0 { Seq::empty() } else { match frag_decision(pdu.len() as int, ctx_len, bufs[0]) {
+        FDec::End { .. } => pdu.subrange(ctx_len, pdu.len() as int),
+        FDec::Inter { k, .. } => pdu.subrange(ctx_len, ctx_len + k) + payloads(pdu, ctx_len + k, bufs.subrange(1, bufs.len() as int)),
+        _ => payloads(pdu, ctx_len, bufs.subrange(1, bufs.len() as int)) } } }
+pub open spec fn ends_skipping(pdu_len: int, ctx_len: int, bufs: Seq<int>) -> bool decreases bufs.len() {
+    if bufs.len() == 0 { false } else { match frag_decision(pdu_len, ctx_len, bufs[0]) {
+        FDec::End { .. } => true,
+        FDec::Inter { k, .. } => ends_skipping(pdu_len, ctx_len + k, bufs.subrange(1, bufs.len() as int)),
+        _ => ends_skipping(pdu_len, ctx_len, bufs.subrange(1, bufs.len() as int)) } } }
+pub proof fn lemma_c11_partition(pdu: Seq<u8>, ctx_len: int, bufs: Seq<int>)
+    requires 0 <= ctx_len <= pdu.len(), ends_skipping(pdu.len() as int, ctx_len, bufs), forall|i: int| 0 <= i < bufs.len() ==> bufs[i] >= 0,
+    ensures payloads(pdu, ctx_len, bufs) =~= pdu.subrange(ctx_len, pdu.len() as int)
+    decreases bufs.len()
+{
+    if bufs.len() > 0 {
+        lemma_frag_nonempty(pdu.len() as int, ctx_len, bufs[0]);
+        let rest = bufs.subrange(1, bufs.len() as int);
+        assert forall|i: int| 0 <= i < rest.len() implies rest[i] >= 0 by { assert(rest[i] == bufs[i + 1]); }
+        match frag_decision(pdu.len() as int, ctx_len, bufs[0]) {
+            FDec::End { .. } => {}
+            FDec::Inter { n, k } => { lemma_c11_partition(pdu, ctx_len + k, rest); }
+            _ => { lemma_c11_partition(pdu, ctx_len, rest); }
+        }
+    }
+}
+
 // =====================================================================================
 // CRC-32/MPEG-2 (C12): poly 0x04C11DB7, init 0xFFFFFFFF, MSB first, no reflection, no final xor
 // =====================================================================================
